@@ -163,12 +163,15 @@ struct PolCore {
 };
 
 #define SIZES(P, S, B, N) static constexpr size_t pagesize = P, slabsize = S, sb_size = B; static constexpr int num_buckets = N;
+// the same constants declared with a 32-bit unsigned type (what a policy written with uint32_t / unsigned literals looks like): no mask or
+// rounding computed from them may lose the upper half of an address or of a length
+#define SIZES32(P, S, B, N) static constexpr unsigned int pagesize = P, slabsize = S, sb_size = B; static constexpr unsigned int num_buckets = N;
 #define UNALIGNED uintptr_t map(size_t len) { return map_impl(len, 0); } void unmap(uintptr_t b, size_t l) { unmap_impl(b, l); }
 #define ALIGNED uintptr_t map(size_t len, size_t align) { return map_impl(len, align); } void unmap(uintptr_t b, size_t l) { unmap_impl(b, l); }
 struct P0 : PolCore { UNALIGNED };                                              // every default: page 4K, slab = sb = 256K, 13 buckets
 struct P1 : PolCore { ALIGNED };
-struct P2 : PolCore { SIZES(0x1000, 0x4000, 0x4000, 9) ALIGNED };                // small
-struct P3 : PolCore { SIZES(0x1000, 0x8000, 0x8000, 11) UNALIGNED };             // tight: 3 objects of the largest class
+struct P2 : PolCore { SIZES32(0x1000, 0x4000, 0x4000, 9) ALIGNED };              // small; constants of type unsigned int
+struct P3 : PolCore { SIZES32(0x1000, 0x8000, 0x8000, 11) UNALIGNED };           // tight: 3 objects of the largest class; constants of type unsigned int
 struct P4 : PolCore { SIZES(0x1000, 0x3000, 0x10000, 10) ALIGNED };              // sb > slab, slab not a power of two
 struct P5 : PolCore { SIZES(0x10000, 0x40000, 0x40000, 13) UNALIGNED };          // 64K pages
 struct P6 : PolCore { SIZES(0x1000, 0x7000, 0x8000, 11) ALIGNED };               // slab not a multiple of the largest class (two whole 8K objects fit behind the header)
@@ -681,11 +684,75 @@ void verif_case_reset() {
 	mutex_log().reset();
 }
 
+// ---- requests of 4 GiB and more ------------------------------------------------------------------
+// A policy of its own: map() reserves address space without backing (PROT_NONE, MAP_NORESERVE) and makes only the first
+// pages and the last page of the reservation accessible; the constants have a 32-bit unsigned type.
+namespace {
+struct HugeLog { struct M { uintptr_t base; size_t len; bool live; }; std::vector<M> maps; std::string error; unsigned map_calls = 0, unmap_calls = 0; };
+HugeLog *HL = nullptr;
+struct HugePol {
+	static constexpr unsigned int pagesize = 0x1000, slabsize = 0x4000, sb_size = 0x4000; static constexpr unsigned int num_buckets = 9;
+	uintptr_t map(size_t len) {
+		HL->map_calls++;
+		void *p = mmap(nullptr, len, PROT_NONE, MAP_PRIVATE | MAP_ANONYMOUS | MAP_NORESERVE, -1, 0);
+		if(p == MAP_FAILED) { HL->error = "address space exhausted"; return 0; }
+		size_t head = std::min<size_t>(len, 0x10000);
+		mprotect(p, head, PROT_READ | PROT_WRITE);
+		if(len > head) mprotect((char *)p + ((len - 1) & ~size_t(0xfff)), 0x1000, PROT_READ | PROT_WRITE);
+		HL->maps.push_back({(uintptr_t)p, len, true});
+		return (uintptr_t)p;
+	}
+	void unmap(uintptr_t base, size_t len) {
+		HL->unmap_calls++;
+		for(auto &m : HL->maps) if(m.live && m.base == base) { if(m.len != len && HL->error.empty()) { char b[160]; snprintf(b, sizeof b, "unmap(%#lx, %zu): map() was asked for %zu bytes at this base", (unsigned long)base, len, m.len); HL->error = b; } m.live = false; munmap((void *)base, m.len); return; }
+		if(HL->error.empty()) HL->error = "unmap of memory the pool never mapped";
+	}
+};
+}
+void run_huge(Ctx &c) {
+	auto &t = c.t;
+	HugeLog log; HL = &log;
+	HugePol pol;
+	using Pool = frg::slab_pool<HugePol, inst_mutex>;
+	Pool *pool = new (c.raw(sizeof(Pool), alignof(Pool))) Pool(pol);
+	static const size_t sizes[] = {(size_t(1) << 32) - 100, (size_t(1) << 32) - 0x1000, size_t(1) << 32, (size_t(1) << 32) + 1, (size_t(1) << 32) + 0x5000, (size_t(1) << 33) + 77, (size_t(3) << 31) + 5, (size_t(1) << 31) + 9};
+	c.op("requests of 4 GiB and more (policy constants of type unsigned int, address space reserved without backing)");
+	c.tag("huge-requests");
+	unsigned rounds = 1 + t.pick(3);
+	for(unsigned r = 0; r < rounds; r++) {
+		size_t n = sizes[t.pick(8)];
+		(void)t.pick(3);      // (a moving realloc would copy 4 GiB of inaccessible pages: not part of this battery)
+		c.op("allocate(%zu)", n);
+		size_t maps_before = log.maps.size();
+		char *p = (char *)pool->allocate(n);
+		VCHECK(c, "C01", p != nullptr && log.error.empty(), "allocate(%zu) failed: %s", n, log.error.c_str());
+		HugeLog::M *reg = nullptr; for(auto &m : log.maps) if(m.live && (uintptr_t)p >= m.base && (uintptr_t)p < m.base + m.len) reg = &m;
+		VCHECK(c, "C01", reg != nullptr, "allocate(%zu) returned a pointer outside every mapping of the policy", n);
+		bool fits = (uintptr_t)p + n <= reg->base + reg->len;
+		VCHECK_OWN(c, "C01", fits, "allocate(%zu): the block at %#lx does not fit into the %zu bytes mapped for it at %#lx (map() was asked for too little)", n, (unsigned long)p, reg->len, (unsigned long)reg->base);
+		VCHECK_OWN(c, "C01", pool->get_size(p) >= n, "get_size() reports %zu for a request of %zu bytes", pool->get_size(p), n);
+		VCHECK(c, "C03", pool->numUsedPages() >= n / 0x1000, "numUsedPages() is %zu after allocating %zu bytes", pool->numUsedPages(), n);
+		p[0] = 'a'; p[0x800] = 'b';
+		if(fits && log.maps.size() > maps_before && ((uintptr_t)p + n - 1) / 0x1000 == (reg->base + reg->len - 1) / 0x1000) p[n - 1] = 'z';     // the last page of the reservation is accessible
+		c.op("free");
+		if(t.flip()) pool->free(p); else pool->deallocate(p, n);
+		VCHECK(c, "C03", log.error.empty(), "%s", log.error.c_str());
+		bool any_large_live = false; for(auto &m : log.maps) if(m.live && m.len > (1u << 20)) any_large_live = true;
+		VCHECK(c, "C03", !any_large_live, "a reservation of a freed 4 GiB block is still mapped");
+	}
+	for(auto &m : log.maps) if(m.live) { munmap((void *)m.base, m.len); m.live = false; }
+	HL = nullptr;
+	c.nontrivial = true;
+}
+
 void verif_case(Ctx &c) {
 	// Poisoning policies belong to the quantifier of C03 only: under another focus a read of a
 	// poisoned byte (an ASan report, which cannot be attributed) would be blamed on the wrong property.
 	bool with_poison = c.focus().empty() || c.focus() == "C03" || c.focus() == "C05";
-	unsigned cfg = c.t.pick(2 * NBASE);
+	uint32_t raw = c.t.next();
+	unsigned cfg = raw % (2 * NBASE);
+	// one in sixteen of the tapes whose first element is not a small number runs the battery of 4 GiB requests instead (C01-C03)
+	if((raw / (2 * NBASE)) % 16 == 15 && c.focus() != "C04" && c.focus() != "C05") { run_huge(c); return; }
 	unsigned base = cfg % NBASE, variant = cfg / NBASE;
 	// Under the C04 focus the poisoning configurations use the software shadow: what C04 says about a
 	// poisoning policy (the existing blocks stay usable after a failed map) is checked explicitly.
